@@ -35,6 +35,15 @@ Theorem C04_check_all_sound :
 Proof. exact check_all_sound. Qed.
 Print Assumptions C04_check_all_sound.
 
+(** Completeness direction, PARTIAL.  Full statement (not proved; covered by the Earley oracle of checks/C04.py only):
+      forall u txt, derives doc_rules_must doc_start u -> token kinds of txt = u -> parse of txt has zero errors.
+    Proved: the parser model accepts with zero errors every member of the covering set [doc_cover_sentences]
+    (one generated sentence per reached alternative of every rule of the documented grammar). *)
+Theorem C04_complete_partial :
+  forall txt, In txt doc_cover_sentences -> exists t st, parse_with parse_fuel grammar_prog grammar_entry txt = ParseOk t [] st.
+Proof. exact C04_complete_partial_proof. Qed.
+Print Assumptions C04_complete_partial.
+
 (** the obligation is not vacuous: without the known accept-deltas the same check FAILS on the current grammar ... *)
 Theorem C04_check_discriminates :
   check_all doc_rules_trail grammar_prog grammar_cert check_fuel grammar_entry doc_start = false.
